@@ -5,9 +5,10 @@ CONSTANTS
   ByteStrings <- BytesThorough
   NumSeqs <- NumsQuick
   NewObjs <- MCNewObjs
+  InheritBound <- MCInheritBound
   MaxDepth = 3
   Starts <- StartsIns2
-  Allowed = {}
+  Allowed = {"resources.shadow.deep", "fresh.aboveMax", "maxid.setObject", "counts.indirect", "delete.bookmark"}
   Emit = TRUE
   EmitMod = 3000
   EmitModV = 400
